@@ -25,6 +25,11 @@ type Case struct {
 	Ops       []Op   `json:"ops"`
 	ExtraNext int    `json:"extra_next"`
 	Closes    int    `json:"closes"`
+	// ReadAll: after Pre manual Next calls the rest is drained with iter.ReadAll; with Bare
+	// (and no stages over a slice source) ReadAll gets the slice iterator itself, unwrapped
+	ReadAll bool `json:"read_all,omitempty"`
+	Pre     int  `json:"pre,omitempty"`
+	Bare    bool `json:"bare,omitempty"`
 }
 
 var mapFns = []func(int) int{
@@ -96,6 +101,11 @@ func gen(t *rapid.T) Case {
 	}
 	c.ExtraNext = rapid.IntRange(0, 3).Draw(t, "extra")
 	c.Closes = rapid.IntRange(1, 2).Draw(t, "closes")
+	if rapid.IntRange(0, 2).Draw(t, "readall") == 0 {
+		c.ReadAll = true
+		c.Pre = rapid.IntRange(0, 3).Draw(t, "pre")
+		c.Bare = rapid.Bool().Draw(t, "bare")
+	}
 	return c
 }
 
@@ -177,6 +187,23 @@ func run(c Case) kit.Result {
 		cur = w
 	}
 	var got []int
+	wantCloses := c.Closes
+	if c.ReadAll {
+		// prefix by hand, rest through ReadAll: together they must be the list
+		var it iter.Iter[int] = cur
+		if c.Bare && len(c.Ops) == 0 && c.SrcKind == "slice" {
+			it = src
+		} else {
+			wantCloses++ // ReadAll closes the iterator it drained
+		}
+		for i := 0; i < c.Pre && it.Next(); i++ {
+			got = append(got, it.Val())
+		}
+		got = append(got, iter.ReadAll[int](it)...)
+		if len(got) > len(c.Src)+5 {
+			return kit.Fail("iterator yields more values than the source has")
+		}
+	}
 	for cur.Next() {
 		got = append(got, cur.Val())
 		if len(got) > len(c.Src)+5 {
@@ -218,11 +245,11 @@ func run(c Case) kit.Result {
 			return kit.Fail("Close: %v", err)
 		}
 	}
-	if base.closes != c.Closes {
-		return kit.Fail("composite closed %d times, source closed %d times", c.Closes, base.closes)
+	if base.closes != wantCloses {
+		return kit.Fail("composite closed %d times, source closed %d times", wantCloses, base.closes)
 	}
-	if rc != nil && rc.closes != c.Closes {
-		return kit.Fail("composite closed %d times, underlying reader closed %d times", c.Closes, rc.closes)
+	if rc != nil && rc.closes != wantCloses {
+		return kit.Fail("composite closed %d times, underlying reader closed %d times", wantCloses, rc.closes)
 	}
 	nt := false
 	for i, op := range c.Ops {
@@ -232,12 +259,19 @@ func run(c Case) kit.Result {
 		}
 	}
 	cls := []string{"src:" + c.SrcKind, fmt.Sprintf("depth:%d", len(c.Ops))}
+	if c.ReadAll {
+		cls = append(cls, "drain:readall")
+		if c.Pre > 0 && len(c.Src) > 0 {
+			cls = append(cls, "readall-after-partial-consumption")
+			nt = nt || len(c.Src) > 1
+		}
+	}
 	return kit.Result{NonTrivial: nt, Classes: cls}
 }
 
 var spec = kit.Spec[Case]{
 	Prop: "C43", Name: "main",
-	Rule: "random int sequence (<=50) through a random composition (depth<=4) of Map/Filter/Limit over a slice or JSON source, compared with list semantics; non-trivial = depth>=2 and a Limit 0<k<len(source)",
+	Rule:  "random int sequence (<=50) through a random composition (depth<=4) of Map/Filter/Limit over a slice or JSON source, compared with list semantics; drained by a Next loop or by 0-3 manual Next calls followed by iter.ReadAll (also on the bare slice iterator); non-trivial = depth>=2 and a Limit 0<k<len(source), or ReadAll after partial consumption",
 	Quick: 10000, Thorough: 60000,
 	Gen: gen, Run: run,
 }
